@@ -18,6 +18,12 @@ def device(rng, **kw):
     return d
 
 
+REAL_PUTS = [("MAIN", "PWR", "On"), ("MAIN", "PWR", "Standby"), ("SYS", "PWR", "On"), ("ZONE2", "PWR", "On"), ("MAIN", "VOL", "Up"), ("MAIN", "VOL", "-30.5"),
+             ("MAIN", "MUTE", "On"), ("MAIN", "INP", "HDMI1"), ("MAIN", "PLAYBACK", "Play"), ("MAIN", "SCENE", "Scene 1"), ("SYS", "REMOTECODE", "7A85-1F2"),
+             ("TUN", "FMFREQ", "101.60"), ("MAIN", "SLEEP", "30 min"), ("SYS", "PARTY", "On"), ("MAIN", "ZONENAME", "Living")]
+REAL_GETS = [("MAIN", "BASIC"), ("SYS", "VERSION"), ("MAIN", "AVAIL"), ("SYS", "INPNAME"), ("MAIN", "SCENENAME"), ("NETRADIO", "METAINFO"), ("MAIN", "PWR")]
+
+
 def burst_ops(rng, i, n, sleeps, kinds=("put", "get", "raw")):
     ops = []
     for k in range(n):
@@ -25,6 +31,10 @@ def burst_ops(rng, i, n, sleeps, kinds=("put", "get", "raw")):
         if s:
             ops.append(["sleep", s])
         kind = rng.choice(kinds)
+        if rng.random() < 0.25 and kind in ("put", "get"):
+            # the commands a real client sends (what the library does must not depend on which command it is)
+            ops.append(["put", *rng.choice(REAL_PUTS)] if kind == "put" else ["get", *rng.choice(REAL_GETS)])
+            continue
         if ops and ops[-1][0] in ("put", "get", "raw") and rng.random() < 0.08:
             ops.append(list(ops[-1]))                 # the very same command again (identical text)
             continue
